@@ -282,6 +282,7 @@ inductive CallOut
   | notFound                                   -- ServiceNotFound
   | invalid                                    -- ServiceValidationError (response requested/required mismatch)
   | ran (gen : Nat) (kwargs : Kw) (response : Bool)   -- the definition `gen` ran; its result is returned or not
+  | lookupError                                -- KeyError out of `ServiceRegistry.supports_response` (script-side call only)
 deriving DecidableEq, Repr
 
 /-- `hass.services.async_call(domain, service, data, blocking=True, return_response=rr)` on a pyscript service -/
@@ -292,6 +293,23 @@ def callOutcome (cfg : Cfg) (r : Reg) (k : Svc) (ctxVal : String) (data : Kw) (r
     if rr && h.resp == .none then .invalid                        -- `none` is declared by omission: the enum default
     else if !rr && h.resp == .only && cfg.respEnum then .invalid
     else .ran h.gen (handlerKwargs ctxVal data) rr
+
+/-- a call made by a script (`service.call(...)` / `domain.service(...)`) goes through
+`Function.hass_services_async_call`: a response-only target is asked for its response even when the script did not say
+`return_response=True` (`supports_response(domain, service) == SupportsResponse.ONLY` – an equality test, so it also
+sees the legacy subsystem's plain string) -/
+def scriptRr (r : Reg) (k : Svc) (rr : Bool) : Bool :=
+  rr || (match aget k r.handler with
+         | some h => h.resp == .only
+         | none => false)
+
+/-- `service.call(domain, name, …)` from a script.  For a service that does not exist, the look-up
+`hass.services.supports_response(domain, service)` – made when the script did not pass `return_response` – raises
+`KeyError` before Home Assistant gets to raise `ServiceNotFound`. -/
+def scriptCallOutcome (cfg : Cfg) (r : Reg) (k : Svc) (ctxVal : String) (data : Kw) (rr : Bool) : CallOut :=
+  match aget k r.handler with
+  | none => if rr then .notFound else .lookupError
+  | some _ => callOutcome cfg r k ctxVal data (scriptRr r k rr)
 
 /-- several calls of one service that overlap in time (the function suspends, e.g. in `task.sleep`, and the next call
 arrives before the first has finished).  Both handlers (`pyscript_service_handler`, `_service_callback`) build a fresh
